@@ -9,3 +9,6 @@ BOUNDS = {'quick': 'every message of <=3 arbitrary UTF-16 units, 5 types, 6 cate
           'thorough': 'additionally messages of 98..103 units around the 100-character fingerprint cut'}
 OUTSIDE = 'JSON text validity and the hexadecimal / ISO-8601 text forms are Qt (QJsonDocument, QUuid, QDateTime): assumed; uniqueness of ids over many events is QUuid::createUuid (modelled as fresh per call)'
 ASSUMPTIONS = ['QUuid::createUuid returns a fresh id per call', 'QDateTime::toUTC/toString(ISODate) are opaque but deterministic functions of the message time', 'QJsonDocument round trip (see C13)']
+
+for _j in JOBS:
+    _j.setdefault('mem_est', 8)
